@@ -287,5 +287,15 @@ def run(sh):
             sh.classes['fingerprinted:' + k[12:]] = v
 
 
+_run_generated = run
+
+
+def run(sh):      # noqa: F811 - thorough tier: the repository's own tests are one more workload for the same monitors
+    _run_generated(sh)
+    if sh.tier == 'thorough' and sh.shard == 0:
+        from .. import repotests
+        repotests.run(sh, PROP)
+
+
 def replay(sh, driver, case):
     run_sequence(sh, case, driver)
